@@ -5,4 +5,4 @@ import sys
 sys.path[:0] = ['/repo' + "/pulser-core", '/repo' + "/pulser-simulation", "/verif"]
 from symx.replay import replay
 sys.exit(replay(check='checks.c09', kernel='atomic', shape={'device': 'virt_maxseq', 'prefix': 'p2', 'ops': ['delay_rest', 'align']},
-                assignment={'pd1/k': 2, 'pd2/k': 988, 'buf#1.start': 0, 'buf#1.end': 2, 'buf#2.start': 0, 'buf#2.end': 3, 'dl0': 3957, 'buf#7.start': 0, 'buf#7.end': 0, 'buf#8.start': 0, 'buf#8.end': 1}, label='atomic:align#1'))
+                assignment={'pd1/k': 2, 'pd2/k': 988, 'buf#1.start': 0, 'buf#1.end': 0, 'buf#2.start': 0, 'buf#2.end': 1, 'dl0': 3957, 'buf#7.start': 0, 'buf#7.end': 0, 'buf#8.start': 0, 'buf#8.end': 1}, label='atomic:align#1'))
